@@ -37,6 +37,7 @@ def main():
             print("%s %-8s %5.1fs  %s" % (p, verdict, time.time() - t0, " | ".join(l for l in lines if not l.startswith("KNOWN"))[:200]), flush=True)
     finally:
         subprocess.run(["git", "-C", "/repo", "checkout", "--", "."])
+        subprocess.run(["git", "-C", "/repo", "clean", "-fdq", "src"])      # files a patch added
     return 0
 
 
